@@ -20,6 +20,14 @@ CLAIMED = {
   text="Clone.tla defines deep-copy semantics over the mutable leaves of a value; TLC enumerates every behaviour (modifications of any leaf on either side, in place or by slot, before and after cloning) and the driver executes each on real values of every cloneable type and shape, comparing every leaf of both sides with the model after each step, plus Equal right after cloning and a reachability walk for memory reachable from both. Machine clones are taken in every state of the Machine.tla graph and every state-changing operation is applied to one side while the other must keep its projection.",
   note="Trusted: TLC, the harness leaf accessors and reflect walk. Bounds: MaxMut=2 modifications per behaviour; shapes listed in harness/drv/clone.go; machine graph bounds as C01.", ref="5/C19",
   technique="explicit TLA+ spec (Clone.tla + Machine.tla graph), TLC-enumerated behaviours replayed on real values with leaf-by-leaf comparison and shared-memory walk"),
+ "C10": dict(
+  text="Persist.tla models every call of the persisting state machine as the machine step followed by the store write units (batches / single puts) of its persister call, with a crash possible at every unit boundary and continuation from a restored machine; TLC checks CrashConsistent and RestoredSigsSound exhaustively. The histories of the Machine.tla graph (every edge after its shortest path, plus seeded walks) are executed on a real persistence.StateMachine over keyvalue.PersistRestorer over a store wrapper that freezes the store at EVERY write boundary; RestoreChannel on each frozen store is compared with snapshots of the live machine before/after the call (index, params, phase, current tx, staged state, every staged signature re-verified, peers, parent); walks also crash, restore and continue.",
+  note="Trusted: TLC, the harness store wrapper (memorydb/LevelDB content copied at each unit), batch atomicity of both stores. Bounds as for C01; LevelDB in the thorough tier.", ref="5/C10",
+  technique="explicit TLA+ specs (Persist.tla crash model checked by TLC; Machine.tla graph as history generator), exhaustive crash-point enumeration on the real persister with restore comparison"),
+ "C11": dict(
+  text="Store.tla defines the restorer views (RestorePeer, ActivePeers, RestoreAll, RestoreChannel, raw keys) as functions of the set of live channels; TLC dumps the complete reachable graph of create (every peer list / parent) / advance / remove over 2-3 channel ids incl. re-creation. Every edge is executed on a real keyvalue.PersistRestorer (memorydb; LevelDB in thorough) and after every step all views and the raw key listing are compared with the model and every restored channel with its own live machine (collect-then-use, as the client does). One channel has 10 participants (signature-key width).",
+  note="Trusted: TLC, harness comparison. Bounds: 3 ids x 1-2 machine steps, 2 ids x 9 steps, 3 peers.", ref="5/C11",
+  technique="explicit TLA+ spec (Store.tla), TLC exhaustive state graph, every transition replayed on the real persister with all restorer views compared"),
 }
 NA_REASON = "check not built yet (work in progress, see DESIGN.md section 11); not a statement that the technique cannot apply"
 checks = []
